@@ -41,6 +41,9 @@ var c11ColonKeys = []string{"a", "ns:a", "b", "x:b", "c", "dc:c", "d", "ns:d"}
 // keys with characters that mean something in OTHER path notations (file paths, URLs, globs, JSON pointers)
 var c11SlashKeys = []string{"a", "a/b", "b", "content/type", "c/", "/d", "d", "e.g"[:1] + "~0", "c:\\x", "a|b", "q?", "x#y"}
 
+// the empty string as a member name ("a..b" is a path of three segments; a path cannot END in the empty key)
+var c11EmptyKeys = []string{"a", "", "b", "", "c"}
+
 var c11NumericKeys = []string{"a", "0", "1", "b", "00", "c", "-1", "2"}
 
 func genMapsOnly(t *rapid.T, d int) map[string]interface{} {
@@ -105,6 +108,9 @@ func genDotPath(t *rapid.T, root map[string]interface{}) []string {
 		if _, ok := cur.(map[string]interface{}); !ok && rapid.IntRange(0, 2).Draw(t, "stop") > 0 {
 			break
 		}
+	}
+	if segs[len(segs)-1] == "" {
+		segs[len(segs)-1] = "a" // "x." is read as "x": the empty key cannot be the last segment
 	}
 	return segs
 }
@@ -187,6 +193,8 @@ func genC11(t *rapid.T) CaseC11 {
 		c11Keys = c11ColonKeys
 	case 3:
 		c11Keys = c11SlashKeys
+	case 4:
+		c11Keys = c11EmptyKeys
 	}
 	c := CaseC11{Map: genMapsOnly(t, 3)}
 	c11Deep = 0
@@ -218,6 +226,9 @@ func genC11(t *rapid.T) CaseC11 {
 			}
 		case "rename":
 			op.NewName = rapid.SampledFrom(append([]string{"nn", "mm"}, c11Keys...)).Draw(t, "nn")
+			if op.NewName == "" {
+				op.NewName = "nn" // a new NAME; whether a key may be renamed to the empty string is not part of the property
+			}
 		}
 		applyModel(model, op)
 		c.Ops = append(c.Ops, op)
